@@ -517,12 +517,7 @@ impl InnerLocustDB {
         let mut new_partition = None;
         let mut maybe_compaction = None;
 
-        if let Some(partition) = table.batch() {
-            let columns: Vec<_> = partition
-                .clone_column_handles()
-                .into_iter()
-                .map(|c| c.try_get().as_ref().unwrap().clone())
-                .collect();
+        if let Some((partition, columns)) = table.batch() {
             let (metadata, subpartitions) = subpartition(&self.opts, columns);
             let mut subpartitions_by_last_column = BTreeMap::new();
             for (i, subpartition) in metadata.iter().enumerate() {
